@@ -1,6 +1,7 @@
 import WcModel.Driver.Proto
 import WcModel.Spec.Grammar
 import WcModel.Spec.Scope
+import WcModel.Spec.PathLang
 namespace WcModel.Driver
 open WcModel.Proto
 
@@ -19,6 +20,50 @@ def handleSpec : List String → Option String
       let ns ← names.mapM decStr
       pure ("ok " ++ String.ofList (ns.map (fun n => if g.langB ci n then '1' else '0')) ++
         " " ++ encBool g.startSafe ++ " " ++ encBool g.negFree)
+  | _ => none
+
+end WcModel.Driver
+
+namespace WcModel.Driver
+open WcModel.Proto
+
+structure SegInfo where
+  scope : Bool := true
+  startSafe : Bool := true
+  negFree : Bool := true
+  d4 : Bool := false
+  d5 : Bool := false
+  d15 : Bool := false
+  firstGlob : Bool := false
+
+def segInfo (pp : PathPat) : SegInfo :=
+  let i := pp.segs.foldl (fun (acc : SegInfo) s => match s with
+    | .glob => acc
+    | .pat g => { acc with scope := acc.scope && g.c01Scope && !g.langB false [],
+                           startSafe := acc.startSafe && g.startSafe, negFree := acc.negFree && g.negFree,
+                           d4 := acc.d4 || g.d4Trigger, d5 := acc.d5 || g.d5Trigger,
+                           d15 := acc.d15 || g.d15Trigger }) {}
+  { i with firstGlob := match pp.segs with | .glob :: _ => true | _ => false }
+
+/-- `pspec <ci> <dot> <ext> <globstar> <glong> <matchbase> <rule> <pattern> <path>…`
+    → `ok <bits> <startSafe> <negFree> <d4> <d5> <d15> <firstGlob>` | `none` | `oos`  (rule: 0 free, 1 may, 2 must).
+    A segment pattern that can match the empty string is outside the documented path
+    semantics (every segment of the path is matched by exactly one segment pattern): `oos`. -/
+def handlePSpec : List String → Option String
+  | ci :: dot :: ext :: gs :: gl :: mb :: rule :: p :: paths => do
+    let ctx : PCtx := { ci := ← decBool ci, dot := ← decBool dot, ext := ← decBool ext,
+                        globstar := ← decBool gs, globstarlong := ← decBool gl, matchbase := ← decBool mb }
+    let r : DotRule := if rule = "1" then .may else if rule = "2" then .must else .free
+    let pat ← decStr p
+    match parsePath ctx pat with
+    | none => pure "none"
+    | some pp =>
+      let i := segInfo pp
+      if !i.scope then pure "oos" else
+      let ps ← paths.mapM decStr
+      pure ("ok " ++ String.ofList (ps.map (fun n => if pathLangR ctx r pp n then '1' else '0')) ++
+        " " ++ encBool i.startSafe ++ " " ++ encBool i.negFree ++ " " ++ encBool i.d4 ++ " " ++ encBool i.d5 ++
+        " " ++ encBool i.d15 ++ " " ++ encBool i.firstGlob)
   | _ => none
 
 end WcModel.Driver
